@@ -271,4 +271,46 @@ def rule_spatial_rejection(ck):
     c01.rule_mask_polarity(ck)
 
 
-RULES = [rule_mag_sentinel, rule_accumulation, rule_pairing, rule_axes, rule_spatial_rejection]
+PURE = ['get_mag_idx', 'get_spatial_idx', 'spatial_counts', 'spatial_event_probability', 'magnitude_counts', 'spatial_magnitude_counts']
+
+
+def rule_pure_gridding(ck):
+    """D6: index/gridding methods are recomputed from the current events, region and bins on every call: they store nothing on
+    the catalog (a memoised index goes stale when the region or its magnitude bins are reassigned) and an explicit mag_bins
+    argument takes precedence over the region's bins."""
+    P = ck.prog
+    ck.clause('D6')
+    for name in PURE:
+        f = P.func(CAT + name)
+        o = ck.ob('C03-D6.pure', f, 'no instance state written by %s' % name, f.node)
+        writes = []
+        for n in all_nodes(f):
+            if isinstance(n, ast.Attribute) and isinstance(n.ctx, (ast.Store, ast.Del)) and isinstance(n.value, ast.Name) and n.value.id == 'self':
+                writes.append(n)
+        reads = [n for n in all_nodes(f) if isinstance(n, ast.Attribute) and isinstance(n.ctx, ast.Load) and isinstance(n.value, ast.Name)
+                 and n.value.id == 'self' and n.attr.startswith('_') and n.attr not in ('_catalog',)]
+        if writes:
+            o.fail('`self.%s` is written by %s: an index or count cached on the catalog is not invalidated when catalog.region or the '
+                   'region\'s magnitude bins change (the evaluations re-bind observed_catalog.region), so later griddings use stale cells/bins'
+                   % (writes[0].attr, name))
+        elif reads:
+            o.fail('%s reads the private attribute self.%s: results must be recomputed from the current events, region and bins' % (name, reads[0].attr))
+        else:
+            o.ok()
+    for name in ('magnitude_counts', 'spatial_magnitude_counts'):
+        f = P.func(CAT + name)
+        for a in find_assignments_local(f, 'mag_bins'):
+            o = ck.ob('C03-D6.bins', f, a, a)
+            g = guards_of(a, f.node)
+            ok = any(pol and u(t) == 'mag_bins is None' for t, pol in g)
+            (o.ok('region / default bins only when no mag_bins are given') if ok else
+             o.fail('`%s` replaces the caller\'s mag_bins outside the `mag_bins is None` case: an explicit magnitude grid is silently ignored, so '
+                    'the histogram disagrees with the equivalent magnitude-range filter' % u(a)))
+
+
+def find_assignments_local(f, name):
+    from .common import find_assignments
+    return find_assignments(f, name)
+
+
+RULES = [rule_mag_sentinel, rule_accumulation, rule_pairing, rule_axes, rule_spatial_rejection, rule_pure_gridding]
